@@ -68,6 +68,39 @@ void h_eos_flush(void) {
     V_CANARY("release block returns");
 }
 #endif
+#if defined(U03_WINDOW)
+#include "Source/Lib/Encoder/Codec/EbPictureDecisionProcess.c"
+/* C03 — no picture is lost when an EOS-flushed (incomplete) pre-assignment buffer is cut into mini-GOPs:
+ * handle_incomplete_picture_window_map.  Contract: if the k mini-GOPs built so far are contiguous from picture 0
+ * (start_0 = 0, start_{i+1} = end_i + 1, end_{k-1} <= count - 1), then afterwards the mini-GOPs are still contiguous
+ * from 0 and the last one ends at count - 1 — every buffered picture is in exactly one mini-GOP — and
+ * length = end - start + 1.  Witness index i. */
+#define MAXMG 6
+void h_window(void) {
+    PictureDecisionContext *ctx = malloc(sizeof(*ctx)); EncodeContext *ec = malloc(sizeof(*ec));
+    __CPROVER_assume(ctx && ec);
+    V_NONDET(uint32_t, levels);
+    __CPROVER_assume(levels <= 5);
+    uint32_t count = ec->pre_assignment_buffer_count, k = ctx->total_number_of_mini_gops;
+    __CPROVER_assume(count >= 1 && count <= 64 && k <= MAXMG);
+    /* contiguity of what has been built so far */
+    for (unsigned i = 0; i < MAXMG; i++) if (i < k) {
+        __CPROVER_assume(ctx->mini_gop_start_index[i] == (i == 0 ? 0 : ctx->mini_gop_end_index[i - 1] + 1));
+        __CPROVER_assume(ctx->mini_gop_end_index[i] >= ctx->mini_gop_start_index[i] && ctx->mini_gop_end_index[i] <= count - 1);
+        __CPROVER_assume(ctx->mini_gop_length[i] == ctx->mini_gop_end_index[i] - ctx->mini_gop_start_index[i] + 1);
+    }
+    EbErrorType e = handle_incomplete_picture_window_map(levels, ctx, ec);
+    V_ASSERT(e == EB_ErrorNone, "returns success");
+    uint32_t k2 = ctx->total_number_of_mini_gops;
+    V_ASSERT(k2 >= 1 && k2 >= k && k2 <= k + 1, "at most one mini-GOP is added");
+    V_ASSERT(ctx->mini_gop_end_index[k2 - 1] == count - 1, "the last mini-GOP ends at the last buffered picture: no trailing picture is dropped");
+    V_NONDET(unsigned, i);
+    __CPROVER_assume(i < k2);
+    V_ASSERT(ctx->mini_gop_start_index[i] == (i == 0 ? 0 : ctx->mini_gop_end_index[i - 1] + 1), "mini-GOPs are contiguous from picture 0: every picture is in exactly one (witness i)");
+    V_ASSERT(ctx->mini_gop_length[i] == ctx->mini_gop_end_index[i] - ctx->mini_gop_start_index[i] + 1, "length = end - start + 1 (witness i)");
+    V_CANARY("window map returns");
+}
+#endif
 #if defined(U19_FLAGS)
 #include SCRATCH_EbResourceCoordinationProcess_c
 /* the per-picture flag initialisation when a (recycled) picture control set is taken from the pool */
